@@ -83,6 +83,138 @@ theorem C10_lane_response_map_roundtrip (ms : List (LaneResponse MapOp)) (hok : 
     (run (laneResponse rawMapOp) [encodeAll (encLaneResp encMapOp) ms]).items = ms :=
   (C10_generic_roundtrip (laneResponse_lawful rawMapOp_lawful) .initialized trivial ms hok).1
 
+/-! ### T2 instances: store protocol, downlink operations -/
+
+/-- `RawValueStoreInitDecoder` / `RawMapStoreInitDecoder`. -/
+theorem C10_store_init_value_split_insensitive :
+    SplitInsensitive (storeInit wlb) (encStoreInit encWlb) (okStoreInit okBytes) :=
+  C10_generic_split_insensitive (storeInit_lawful wlb_lawful)
+
+theorem C10_store_init_map_split_insensitive :
+    SplitInsensitive (storeInit rawMapMsg) (encStoreInit encMapMsg) (okStoreInit okMapMsg) :=
+  C10_generic_split_insensitive (storeInit_lawful rawMapMsg_lawful)
+
+theorem C10_store_initialized_split_insensitive :
+    SplitInsensitive (Dec.ofParser storeInitialized) encStoreInitialized (fun _ => True) :=
+  C10_generic_split_insensitive (Lawful.ofParser storeInitialized_lawful)
+
+/-- `RawValueStoreResponseDecoder` / `RawMapStoreResponseDecoder` (with their `remaining() <= TAG_LEN` guard). -/
+theorem C10_store_response_value_split_insensitive :
+    SplitInsensitive (storeResponse wlb) (encStoreResp encWlb) okBytes :=
+  C10_generic_split_insensitive (storeResponse_lawful wlb_lawful)
+
+theorem C10_store_response_map_split_insensitive :
+    SplitInsensitive (storeResponse rawMapOp) (encStoreResp encMapOp) okMapOp :=
+  C10_generic_split_insensitive (storeResponse_lawful rawMapOp_lawful)
+
+/-- `DownlinkOperationDecoder`, for bodies whose announced size the allocator can still reserve (it
+reserves `LEN_SIZE + len` as soon as the length is known). -/
+theorem C10_downlink_operation_split_insensitive :
+    SplitInsensitive (Dec.ofParser downlinkOp) encWlb okDlBody :=
+  C10_generic_split_insensitive (Lawful.ofParser downlinkOp_lawful)
+
+/-! ### corrupt tags and lengths -/
+
+/-- An unknown lane-request tag is an error (and exactly the tag byte is dropped). -/
+theorem C10_lane_request_unknown_tag_is_error {β : Type} (p : Parser β) (t : Nat) (rest : List Nat)
+    (h : t ≠ laneCommand ∧ t ≠ laneSync ∧ t ≠ laneInitDone) :
+    laneReqStep p .header (t :: rest) = (.header, rest, .err) := by
+  simp [laneReqStep, tagLen, h.1, h.2.1, h.2.2]
+
+/-- An unknown lane-response tag is an error (nothing is consumed). -/
+theorem C10_lane_response_unknown_tag_is_error {β : Type} (p : Parser β) (t : Nat) (rest : List Nat)
+    (h : t ≠ laneEvent ∧ t ≠ laneInitialized ∧ t ≠ laneSync ∧ t ≠ laneSyncComplete) :
+    laneRespStep p .header (t :: rest) = (.header, t :: rest, .err) := by
+  simp [laneRespStep, tagLen, h.1, h.2.1, h.2.2.1, h.2.2.2]
+
+/-- An unknown map-operation tag is an error. -/
+theorem C10_map_operation_unknown_tag_is_error (n t : Nat) (rest : List Nat)
+    (h : t ≠ mapUpdate ∧ t ≠ mapRemove ∧ t ≠ mapClear) :
+    rawMapOp (be 8 n ++ t :: rest) = (be 8 n ++ t :: rest, .err) := by
+  simp [rawMapOp, mapLenSize, mapTagSize, h.1, h.2.1, h.2.2]
+  omega
+
+/-- The full no-panic clause: no input makes a decoder panic. **False of the current code** (F4). -/
+def C10_corrupt_is_error : Prop :=
+  (∀ buf, (wlb buf).2 ≠ .panic) ∧ (∀ buf, (rawMapOp buf).2 ≠ .panic) ∧ (∀ buf, (downlinkOp buf).2 ≠ .panic)
+
+/-- F4 witnesses on the model (each was run against the real decoder, see corpus/C10): a length of
+`u64::MAX - 3`, and an `UPDATE` of total length 9 whose key length is `u64::MAX`. -/
+theorem C10_corrupt_is_error_fails : ¬ C10_corrupt_is_error := by
+  intro h
+  exact h.1 [255, 255, 255, 255, 255, 255, 255, 252] (by decide)
+
+theorem C10_map_operation_key_len_panics :
+    (rawMapOp ([0, 0, 0, 0, 0, 0, 0, 9, 0] ++ [255, 255, 255, 255, 255, 255, 255, 255])).2 = .panic := by
+  decide
+
+/-- What does hold: `WithLengthBytesCodec` panics exactly when `LEN_SIZE + len` overflows, and
+`RawMapOperationDecoder` panics only when one of its two additions overflows. -/
+theorem C10_wlb_panic_iff_partial (buf : List Nat) :
+    (wlb buf).2 = .panic ↔ (8 ≤ buf.length ∧ M64 ≤ 8 + rd (buf.take 8)) := by
+  by_cases h1 : buf.length < 8
+  · simp [wlb, wlbLenSize, h1]; omega
+  · by_cases h2 : M64 ≤ 8 + rd (buf.take 8)
+    · simp [wlb, wlbLenSize, h1, h2]; omega
+    · by_cases h3 : 8 + rd (buf.take 8) ≤ buf.length
+      · simp [wlb, wlbLenSize, h1, h2, h3]
+      · simp [wlb, wlbLenSize, h1, h2, h3]
+
+theorem C10_map_operation_panic_only_overflow_partial (buf : List Nat) (h : (rawMapOp buf).2 = .panic) :
+    M64 ≤ 8 + rd (buf.take 8) ∨
+      M64 ≤ rd ((((buf.drop 8).take (rd (buf.take 8))).drop 1).take 8) + 8 + 1 := by
+  by_cases a : M64 ≤ 8 + rd (buf.take 8)
+  · left; exact a
+  · by_cases b : M64 ≤ rd ((((buf.drop 8).take (rd (buf.take 8))).drop 1).take 8) + 8 + 1
+    · right; exact b
+    · exfalso
+      revert h
+      unfold rawMapOp rawMapOpUpdate rawMapOpRemove rawMapOpUpdateFrame
+      repeat' split
+      all_goals simp_all [mapLenSize, mapTagSize]
+      all_goals omega
+
+/-- F17 on the model: a request frame whose 3-bit kind is `UNLINKED` (6) comes out as a command, and a `link`
+with a non-zero length leaves its "body" in the buffer. -/
+theorem C10_request_unknown_tag_fails :
+    (rawRequest (be 16 7 ++ be 4 1 ++ be 4 1 ++ be 8 (3 + 6 * OPSH) ++ [110, 108] ++ [1, 2, 3])).2
+      = .item ⟨be 16 7, [110], [108], .command [1, 2, 3]⟩ ∧
+    rawRequest (be 16 7 ++ be 4 1 ++ be 4 1 ++ be 8 (2 + 0 * OPSH) ++ [110, 108] ++ [170, 187])
+      = ([170, 187], .item ⟨be 16 7, [110], [108], .link⟩) := by
+  decide
+
+/-- F101 on the model: a `Register` frame fed in two reads is never delivered (fed in one read it is). -/
+theorem C10_command_register_split_fails :
+    (run rawCommand [encCmd (.register ⟨none, [110], [108]⟩ 7)]).items = [.register ⟨none, [110], [108]⟩ 7] ∧
+    (run rawCommand [[1], (encCmd (.register ⟨none, [110], [108]⟩ 7)).drop 1]).items = [] := by
+  decide
+
+/-! ### statements not proved (yet) -/
+
+/-- Routed request messages (`RawRequestMessageDecoder`) on well-formed frames. -/
+def C10_raw_request_split_insensitive_open : Prop :=
+  SplitInsensitive (Dec.ofParser rawRequest) encReqMsg fun m =>
+    m.origin.length = 16 ∧ m.node.length < 4294967296 ∧ m.lane.length < 4294967296 ∧ utf8Valid m.node = true ∧
+      utf8Valid m.lane = true ∧ (∀ b, m.env = .command b → 32 + m.node.length + m.lane.length + b.length < ALLOC_LIMIT)
+
+/-- Routed response messages (`RawResponseMessageDecoder`); `Unlinked(Some(b""))` has the wire form of
+`Unlinked(None)` and is excluded. -/
+def C10_raw_response_split_insensitive_open : Prop :=
+  SplitInsensitive (Dec.ofParser rawResponse) encRespMsg fun m =>
+    m.origin.length = 16 ∧ m.node.length < 4294967296 ∧ m.lane.length < 4294967296 ∧ utf8Valid m.node = true ∧
+      utf8Valid m.lane = true ∧ m.env ≠ .unlinked (some []) ∧
+      (∀ b, (m.env = .event b ∨ m.env = .unlinked (some b)) →
+        32 + m.node.length + m.lane.length + b.length < ALLOC_LIMIT)
+
+/-- Ad hoc command messages other than `Register` (for `Register` see `C10_command_register_split_fails`). -/
+def C10_command_nonregister_split_insensitive_open : Prop :=
+  SplitInsensitive rawCommand encCmd fun m =>
+    match m with
+    | .register _ _ => False
+    | .addressed a b _ => okBytes b ∧ a.node.length < SZ ∧ a.lane.length < SZ ∧ utf8Valid a.node = true ∧
+        utf8Valid a.lane = true ∧ (∀ h, a.host = some h → h.length < SZ ∧ utf8Valid h = true)
+    | .registered t b _ => okBytes b ∧ t < 65536
+
 /-! ### side conditions on the generated table (re-checked against the sources on every run) -/
 
 /-- Tags that share a decoder are pairwise distinct. -/
